@@ -42,6 +42,13 @@ func TestVerif_C36(t *testing.T) {
 		quiesce := rng.Bool()
 		reloadInterval := rng.Bool()
 		reloadDuringStop := rng.Bool() // config reloads keep being delivered while Stop runs
+		// Every other case uses a sampler of the dynamic family (they run a goroutine
+		// inside dynsampler-go that Refinery has to stop), top-level or downstream of a
+		// rule, configured so that it still keeps every trace (rate 1 / huge goal).
+		dynKind, dynDownstream := "", false
+		if ci%2 == 1 {
+			dynKind, dynDownstream = verifkit.Pick(rng, "dynamic", "emadynamic", "emathroughput", "windowedthroughput", "totalthroughput"), rng.Bool()
+		}
 		// Fixed strata (case index mod 6), so that every tier has each kind of shutdown:
 		//  0 decided traces whose spans still wait in an upstream batch
 		//  1 decided traces already sent on
@@ -77,6 +84,33 @@ func TestVerif_C36(t *testing.T) {
 			cfg.GetTracesConfigVal.MaxBatchSize = uint(maxBatch)
 			cfg.GetTracesConfigVal.SendTicker = config.Duration(time.Duration(rng.Range(2, 10)) * time.Millisecond)
 			cfg.GetCollectionConfigVal.WorkerCount = workers
+			if dynKind != "" {
+				fields := []string{"svc"}
+				ds := &config.RulesBasedDownstreamSampler{}
+				var top any
+				switch dynKind {
+				case "dynamic":
+					c := &config.DynamicSamplerConfig{SampleRate: 1, ClearFrequency: config.Duration(30 * time.Second), FieldList: fields}
+					ds.DynamicSampler, top = c, c
+				case "emadynamic":
+					c := &config.EMADynamicSamplerConfig{GoalSampleRate: 1, AdjustmentInterval: config.Duration(15 * time.Second), Weight: 0.5, FieldList: fields}
+					ds.EMADynamicSampler, top = c, c
+				case "emathroughput":
+					c := &config.EMAThroughputSamplerConfig{GoalThroughputPerSec: 1000000, InitialSampleRate: 1, AdjustmentInterval: config.Duration(15 * time.Second), Weight: 0.5, FieldList: fields}
+					ds.EMAThroughputSampler, top = c, c
+				case "windowedthroughput":
+					c := &config.WindowedThroughputSamplerConfig{GoalThroughputPerSec: 1000000, UpdateFrequency: config.Duration(time.Second), LookbackFrequency: config.Duration(30 * time.Second), FieldList: fields}
+					ds.WindowedThroughputSampler, top = c, c
+				case "totalthroughput":
+					c := &config.TotalThroughputSamplerConfig{GoalThroughputPerSec: 1000000, ClearFrequency: config.Duration(30 * time.Second), FieldList: fields}
+					ds.TotalThroughputSampler, top = c, c
+				}
+				if dynDownstream {
+					cfg.GetSamplerTypeVal = &config.RulesBasedSamplerConfig{Rules: []*config.RulesBasedSamplerRule{{Name: "verif-dyn", Sampler: ds}}}
+				} else {
+					cfg.GetSamplerTypeVal = top
+				}
+			}
 			if reloadInterval {
 				// starts the config watcher's monitor goroutine; it never fires within a case
 				cfg.GetGeneralConfigVal.ConfigReloadInterval = config.Duration(time.Hour)
@@ -612,6 +646,14 @@ func TestVerif_C36(t *testing.T) {
 				map[string]any{"goroutine": g, "config_reload_interval_set": reloadInterval})
 		}
 
+		// (c') nor a goroutine Refinery started inside dynsampler-go for a dynamic sampler
+		dynLeft := cl.LeftoverGoroutinesWhere(func(g e2Goroutine) bool {
+			return strings.HasPrefix(g.CreatedBy, "github.com/honeycombio/dynsampler-go.")
+		})
+		if len(dynLeft) > 0 {
+			run.Violation("C36/graceful-stop/goroutine-left-running/dynsampler", "a goroutine started by dynsampler-go for one of this node's samplers is still running after Stop returned",
+				map[string]any{"goroutines": dynLeft, "sampler": dynKind, "downstream_of_rule": dynDownstream, "reloads": reloads, "stratum": stratum, "trace_send_kept": post["trace_send_kept"]})
+		}
 		run.Count("spans_acked_before_shutdown", int64(len(acked)))
 		run.Count("spans_at_honeycomb", int64(len(got)))
 		if windowDecisions > 0 {
@@ -639,7 +681,7 @@ func TestVerif_C36(t *testing.T) {
 			if cut == len(batches) {
 				point = "all"
 			}
-			run.Nontrivial(fmt.Sprintf("sd=%v bt=%v q=%v at=%s buffered=%v decided=%v window>=20:%v reloads=%d held=%v", sendDelay, batchTimeout, quiesce, point, buffered > 0, decided > 0, windowDecisions >= 20, reloads, len(held) > 0))
+			run.Nontrivial(fmt.Sprintf("sd=%v bt=%v q=%v at=%s buffered=%v decided=%v window>=20:%v reloads=%d held=%v dyn=%s/%v", sendDelay, batchTimeout, quiesce, point, buffered > 0, decided > 0, windowDecisions >= 20, reloads, len(held) > 0, dynKind, dynDownstream))
 		}
 		if ci < 2 {
 			run.Sample(ctx)
